@@ -19,13 +19,13 @@ RULE = ("Seeded plans: 1-2 listeners registered with the shipped register_trap_c
         "loop=SimLoop) (listen and SNMPTrapReceiverProtocol bind a simulated socket), 1-4 emitters with distinct source "
         "addresses (IPv4 2-tuples, or IPv6 peers reported as 4-tuples) sending 3-40 datagrams at plan-chosen virtual instants: well-formed SNMPv2-Trap PDUs built by the "
         "reference encoder (sysUpTime.0, snmpTrapOID.0, 0-8 payload bindings of every value type, minimal or legal long "
-        "length forms), the same with a foreign community, strict prefixes (truncations), garbage the independent decoder "
-        "rejects, single-bit flips of a dedicated base trap and other-version messages (the last two: robustness only, no "
+        "length forms), the same with a foreign community, strict prefixes (truncations), traps whose outermost identifier "
+        "octet is not SEQUENCE, garbage the independent decoder rejects, single-bit flips of a dedicated base trap and other-version messages (the last two: robustness only, no "
         "delivery verdict); network faults on the way: loss, duplication, delay/reordering; callbacks that are slow (overlap) "
         "or raise for some traps. Oracle: per arrival (a duplicated datagram counts twice, a lost one not at all) of a "
         "well-formed matching trap exactly one callback with Trap.source = the emitter's address and exactly the bindings "
-        "sent, TrapInfo(origin, uptime, oid, values) equal to the independent pythonisation; foreign-community, truncated and "
-        "garbage datagrams never reach the callback; whatever arrived before, later traps are still delivered (exceptions "
+        "sent, TrapInfo(origin, uptime, oid, values) equal to the independent pythonisation; foreign-community, truncated, "
+        "wrong-outer-tag and garbage datagrams never reach the callback; whatever arrived before, later traps are still delivered (exceptions "
         "end up in the loop's exception handler); the listener socket stays open. Non-trivial: >= 1 valid arrival and >= 1 "
         "bad datagram or network fault; distinct = distinct (sequence of arrival classes per listener, faults fired).")
 ASSUMPTIONS = [
@@ -34,7 +34,7 @@ ASSUMPTIONS = [
     "exceptions raised inside datagram_received reach the event loop's exception handler, as with asyncio's selector "
     "datagram transport (reproduced by the simulated transport: delivery runs inside a loop callback)",
 ]
-PROBES = ["two_listeners", "foreign_community", "truncated", "garbage", "bitflip", "other_version", "dup_arrival", "lost",
+PROBES = ["two_listeners", "foreign_community", "truncated", "garbage", "wrong_outer_tag", "bitflip", "other_version", "dup_arrival", "lost",
           "reordered", "bad_then_valid", "callback_raises", "slow_callback_overlap", "zero_payload", "eight_payload",
           "long_length_forms", "every_value_kind", "duplicate_payload_oid", "four_emitters", "ipv6_peers",
           "indefinite_no_eoc_reached"]
@@ -67,8 +67,8 @@ def plan_for(tier: str, seed: int, i: int) -> dict:
     for n in range(rng.randrange(3, 41)):
         t += rng.randrange(1, 40)
         r = rng.random()
-        cls = ("valid" if r < 0.5 else "foreign" if r < 0.6 else "truncated" if r < 0.72 else "garbage" if r < 0.82
-               else "bitflip" if r < 0.92 else "version")
+        cls = ("valid" if r < 0.5 else "foreign" if r < 0.6 else "truncated" if r < 0.7 else "garbage" if r < 0.78
+               else "badtag" if r < 0.84 else "bitflip" if r < 0.92 else "version")
         li = rng.randrange(len(listeners))
         payload = []
         used = set()
@@ -147,6 +147,9 @@ def build(plan: dict, d: dict) -> Tuple[bytes, Optional[list]]:
         raw = bytes((keyed(d["param"], "g", j) & 0xFF) for j in range(n))
         if d["param"] % 3 == 0 and raw:
             raw = b"\x30" + raw[1:]
+    elif cls == "badtag":
+        # an otherwise intact trap whose outermost identifier octet is not SEQUENCE: malformed by construction
+        raw = bytes([[0x31, 0x04, 0xA7, 0x00, 0x70, 0x10, 0xB0][d["param"] % 7]]) + raw[1:]
     elif cls == "bitflip":
         b = bytearray(raw)
         pos = d["param"] % (len(b) * 8)
@@ -329,12 +332,13 @@ def execute(plan: dict) -> dict:
     arr_cls = [a["cls"] for a in arrivals]
     fired = set(f[2] for f in w.net.fired)
     order = [a["n"] for a in arrivals]
-    first_valid_after_bad = any(c == "valid" and any(x in ("truncated", "garbage", "foreign", "bitflip", "version")
+    first_valid_after_bad = any(c == "valid" and any(x in ("truncated", "garbage", "foreign", "bitflip", "version", "badtag")
                                                      for x in arr_cls[:k]) for k, c in enumerate(arr_cls))
     kinds_seen = set(v[0] for r in records if r["cls"] == "valid" for _, v in r["vbs"][2:])
     probes = {
         "two_listeners": int(len(plan["listeners"]) > 1), "foreign_community": int("foreign" in arr_cls),
         "truncated": int("truncated" in arr_cls), "garbage": int("garbage" in arr_cls), "bitflip": int("bitflip" in arr_cls),
+        "wrong_outer_tag": int("badtag" in arr_cls),
         "other_version": int("version" in arr_cls), "dup_arrival": int(any(c > 1 for c in expected.values())),
         "lost": int("drop" in fired), "reordered": int(order != sorted(order)),
         "bad_then_valid": int(first_valid_after_bad), "callback_raises": int(running["raised"] > 0),
@@ -351,7 +355,7 @@ def execute(plan: dict) -> dict:
     counters["callbacks"] = len(got)
     counters["arrivals_valid"] = sum(expected.values())
     counters["loop_exceptions"] = len(loop.exceptions)
-    for c in ("foreign", "truncated", "garbage", "bitflip", "version"):
+    for c in ("foreign", "truncated", "garbage", "badtag", "bitflip", "version"):
         counters["fault_dgram_" + c] = arr_cls.count(c)
     for k, v in probes.items():
         counters["probe_" + k] = v
